@@ -2,7 +2,7 @@
    canonical array whose dense meaning is NumPy's function (Spec/NpShapeOps.v) of the dense meaning
    of its input; pruned-ness, shape law and fill value included.  For ALL shapes, axes, patterns. *)
 From Coq Require Import ZArith List Bool Lia ZifyBool Sorting.Sorted Sorting.Permutation.
-From Verif Require Import Py PyExt Shape COO COOP G_shapeops ShapeOps NpShapeOps ShapeOpsL SlicingP.
+From Verif Require Import Py PyExt Shape COO COOP G_shapeops S_shapeops ShapeOps NpShapeOps ShapeOpsL SlicingP.
 Import ListNotations.
 Open Scope Z_scope.
 
@@ -1700,14 +1700,18 @@ Fixpoint sub_off (ix : idx) (prs : list (Z * Z)) : idx :=
 Fixpoint pad_sh (sh : shape) (prs : list (Z * Z)) : shape :=
   match sh, prs with d :: sh', p :: ps => (d + fst p + snd p) :: pad_sh sh' ps | _, _ => [] end.
 
-Lemma add_off_eq c prs : map (fun cb => fst cb + snd cb) (combine c (map fst prs)) = add_off c prs.
-Proof. revert prs; induction c as [|i c IH]; intros [|p ps]; simpl; try reflexivity. f_equal. apply IH. Qed.
+Lemma add_off_eq c prs : map (fun cb => s_pad_coord (fst cb) (snd cb)) (combine c (map fst prs)) = add_off c prs.
+Proof. unfold s_pad_coord. revert prs; induction c as [|i c IH]; intros [|p ps]; simpl; try reflexivity. f_equal. apply IH. Qed.
 
 Lemma sub_off_eq ix prs : map (fun ib => fst ib - fst (snd ib)) (combine ix prs) = sub_off ix prs.
 Proof. revert prs; induction ix as [|i c IH]; intros [|p ps]; simpl; try reflexivity. f_equal. apply IH. Qed.
 
 Lemma pad_sh_eq sh prs : map (fun dp => fst dp + fst (snd dp) + snd (snd dp)) (combine sh prs) = pad_sh sh prs.
 Proof. revert prs; induction sh as [|d sh IH]; intros [|p ps]; simpl; try reflexivity. f_equal. apply IH. Qed.
+
+Lemma pad_sh_eq_gen sh prs :
+  map (fun dp => s_pad_extent (fst dp) (fst (snd dp)) (snd (snd dp))) (combine sh prs) = pad_sh sh prs.
+Proof. unfold s_pad_extent. apply pad_sh_eq. Qed.
 
 Definition pads_nonneg (prs : list (Z * Z)) : Prop := Forall (fun p => 0 <= fst p /\ 0 <= snd p) prs.
 
@@ -1778,11 +1782,11 @@ Section Pad.
   Proof.
     intros Hcv Hpw Hnn. pose proof (pad_pairs_length _ _ _ Hpw) as Hlen.
     unfold coo_pad. rewrite Hcv. simpl. fold sh. rewrite Hpw. simpl.
-    unfold coo_make_checked. rewrite pad_sh_eq.
+    unfold coo_make_checked. rewrite pad_sh_eq_gen.
     assert (Hok' : existsb (fun d => d <? 0) (pad_sh sh prs) = false).
     { apply shape_ok_existsb. apply pad_sh_ok; assumption. }
     rewrite Hok'.
-    set (f := fun c : idx => map (fun cb => fst cb + snd cb) (combine c (map fst prs))).
+    set (f := fun c : idx => map (fun cb => s_pad_coord (fst cb) (snd cb)) (combine c (map fst prs))).
     assert (Hf : forall c, f c = add_off c prs) by (intros c; apply add_off_eq).
     assert (Hrange : forall c, in_range sh c -> in_range (pad_sh sh prs) (f c)).
     { intros c Hc. rewrite Hf. apply add_off_range; assumption. }
